@@ -325,7 +325,12 @@ impl<'a> CompilerState<'a> {
         let varname = px.as_str();
         let subscript = match p.next() {
             Some(pair) => {
+                let start = pair.as_span().start();
                 let expr = self.parse_expr_ex(pair.into_inner(), self.literal_counter)?;
+                // The literals met in a subscript are not collected by the caller
+                if !expr.1.is_empty() {
+                    return Err(self.syntax_error("String literal in subscript", start));
+                }
                 Box::new(expr.0)
             }
             None => Box::new(Expr::Nothing),
